@@ -45,6 +45,7 @@ type Frame struct {
 	env   map[ssa.Value]Val
 	loopHeads map[int]map[string]T // heap snapshot at the head of each loop in its current iteration (for at(L, e))
 	loopHeadNames map[int]map[string]Val // the local variables as they were there
+	ranCond map[ssa.Value]T // after a merge of paths: under which condition a call that only some of them made has run (for called())
 	names map[string]Val // source-level names bound by DebugRef (values) — latest
 	addrs map[string]Val // source-level names whose DebugRef is an address
 	lets  map[string]Val // ghost lets
@@ -64,6 +65,12 @@ func (f *Frame) clone() *Frame {
 	g.env = make(map[ssa.Value]Val, len(f.env))
 	for k, v := range f.env {
 		g.env[k] = v
+	}
+	if f.ranCond != nil {
+		g.ranCond = make(map[ssa.Value]T, len(f.ranCond))
+		for k, v := range f.ranCond {
+			g.ranCond[k] = v
+		}
 	}
 	if f.loopHeadNames != nil {
 		g.loopHeadNames = make(map[int]map[string]Val, len(f.loopHeadNames))
